@@ -35,7 +35,11 @@ from nauyaca.server.protocol import GeminiServerProtocol  # noqa: E402
 
 OWN = {"C06": {"PrefixAlways", "CompleteAtClose", "ByteExact"},
        "C01": {"ClosedAfterCloseNotify", "CompleteAtClose"},
-       "C07": {"PlainInOrder", "PlainComplete", "SegIndepTls", "RequestAnswered"},
+       # RequestAnswered (a request sharing a read with the client's close_notify is answered) is what the tree does with a
+       # synchronous handler, and the design model checks it; it is NOT claimed for C07: a client that closes with its request
+       # "has disconnected first" in C01's words, and with handlers that complete later the same silence occurs on the
+       # unchanged tree whenever the close arrives before the handler is done - reported as drift only
+       "C07": {"PlainInOrder", "PlainComplete", "SegIndepTls"},
        "C08": {"PlainInOrder", "PlainComplete"},      # a valid request line reaches the inner protocol intact through the TLS layer
        # (PlainComplete: a request the TLS layer has received completely is handed on, so that no timeout fires on it)
        "C15": {"HsTimerWhileHandshaking", "HsTimeoutCloses", "ClosedAfterCloseNotify", "PlainComplete"},
